@@ -115,6 +115,32 @@ fn exec(line: &str) -> (String, Option<String>, bool) {
     if after_vis != before_vis {
         verdict.get_or_insert(format!("[hydrate-visible] the visible tree changed during hydration: `{before_vis}` -> `{after_vis}`"));
     }
+    // the document right after hydration, comments included (compared with Model/Hydrate.lean)
+    fn full(parent: &Node, out: &mut String) {
+        let mut first = true;
+        let mut ch = parent.first_child();
+        while let Some(x) = ch {
+            if !first { out.push(','); }
+            first = false;
+            match x.node_type() {
+                1 => {
+                    let e: &web_sys::Element = x.unchecked_ref();
+                    let adopted = e.get_attribute("data-hydrated").is_some();
+                    let mut attrs: Vec<(String, String)> = web_sys::verif::attributes(e).into_iter().filter(|(n, _)| n != "data-hk" && n != "data-hydrated").map(|(n, v)| (enc(&n), enc(&v))).collect();
+                    attrs.sort();
+                    out.push_str(&format!("E{}:{}[{}]{{", if adopted { "*" } else { "" }, enc(&e.tag_name().to_lowercase()), attrs.iter().map(|(n, v)| format!("{n}={v}")).collect::<Vec<_>>().join(";")));
+                    full(&x, out);
+                    out.push('}');
+                }
+                3 => out.push_str(&format!("T:{}", enc(&x.text_content().unwrap_or_default()))),
+                _ => out.push_str(&format!("C:{}", enc(&x.text_content().unwrap_or_default()))),
+            }
+            ch = x.next_sibling();
+        }
+    }
+    let mut h = String::from("H=");
+    full(&container, &mut h);
+    out.push(h);
     let mut names: HashMap<u64, usize> = HashMap::new();
     out.push(vis(&container, Some(&mut names)));
     // ---- afterwards: behaves like a client-rendered view
